@@ -103,6 +103,14 @@ def e2e_orders(case, only_first=False):
                    if e[0] == 'run.enter']
             comp = [k for k, _ in itertools.groupby(seq)]
             heads = [e[1] for e in ev if e[0] == 'out.running']
+            # layers handed to resume_tests (after a tearDown raised NotImplementedError) run in child processes, in the
+            # order handed over: they continue the run order (the stub records the names instead of spawning)
+            short = {world.full(ld['name']): ld['name'] for ld in s['layers']}
+            short[UNIT] = UNIT
+            resumed = [short.get(n, n) for e in ev if e[0] == 'resume' for n in e[1]]
+            comp = comp + resumed
+            # (the parent has already printed the header of the layer it then could not start: count each name once)
+            heads = heads + [n for n in resumed if n not in heads]
             out.append(({'groups': perm, 'args': args},
                         {'order': comp, 'headers': heads,
                          'crash': world.crash}))
@@ -133,9 +141,49 @@ def _order_checks(world, order, selected, prefix, viol, where):
                              % (where, a, b, order)))
 
 
+def _alias_run(a_first):
+    """two registered layer names denoting ONE layer object (a dotted-name alias given as a string next to the class),
+    discovered in the given order; -> the order in which the two groups' tests ran"""
+    import io
+    import shutil
+    import tempfile
+    from contextlib import redirect_stdout, redirect_stderr
+    import zope.testrunner
+    d = tempfile.mkdtemp(prefix='c10alias')
+    pkg = 'c10alias_%d' % (abs(hash(d)) % 100000)
+    try:
+        os.mkdir(os.path.join(d, pkg))
+        w = lambda n, t: open(os.path.join(d, pkg, n), 'w').write(t)
+        w('__init__.py', '')
+        w('layers.py', 'class L:\n    @classmethod\n    def setUp(cls): pass\n    @classmethod\n    def tearDown(cls): pass\n')
+        w('alias.py', 'from %s.layers import L as L2\n' % pkg)
+        w('tests.py', 'import unittest\nfrom %s.layers import L\nRAN = []\n'
+          'class A(unittest.TestCase):\n    layer = L\n    def test_a(self): RAN.append("a")\n'
+          'class B(unittest.TestCase):\n    layer = %r\n    def test_b(self): RAN.append("b")\n'
+          'def test_suite():\n    l = unittest.defaultTestLoader.loadTestsFromTestCase\n'
+          '    return unittest.TestSuite([l(A), l(B)] if %r else [l(B), l(A)])\n'
+          % (pkg, pkg + '.alias.L2', bool(a_first)))
+        out = io.StringIO()
+        with redirect_stdout(out), redirect_stderr(out):
+            zope.testrunner.run_internal(['--path', d, '--tests-pattern', '^tests$'], ['run'])
+        return list(sys.modules[pkg + '.tests'].RAN)
+    finally:
+        for m in [m for m in sys.modules if m == pkg or m.startswith(pkg + '.')]:
+            del sys.modules[m]
+        shutil.rmtree(d, ignore_errors=True)
+
+
 def check_case(case):
     """-> (executions, [(key, summary)])"""
     viol = []
+    if case['mode'] == 'alias':
+        first, second = _alias_run(True), _alias_run(False)
+        if sorted(first) != ['a', 'b'] or sorted(second) != ['a', 'b']:
+            viol.append(('alias:group-not-run-exactly-once', 'ran %s / %s' % (first, second)))
+        elif first != second:
+            viol.append(('alias:depends-on-discovery-order',
+                         'two names of one layer: groups ran as %s when discovered A,B but %s when discovered B,A' % (first, second)))
+        return 2, viol
     if case['mode'] == 'direct':
         world, outs = direct_orders(case)
         first = outs[0][1]
@@ -279,6 +327,21 @@ def e2e_case(graph, names, kinds, owner_groups, unit, args=(), max_perms=24,
     return case
 
 
+def stage_e2e_ntd():
+    """worlds in which one layer's tearDown raises NotImplementedError, so that the rest of the run is handed to
+    subprocesses: every DAG on 3..4 layers, the first / each root layer refusing its tearDown, all layers owning tests"""
+    for n in (3, 4):
+        for graph in lw.all_dags(n):
+            for kinds in _kind_choices(graph)[:1]:
+                for names in list(itertools.permutations(NAME_POOLS[0][:n]))[:6]:
+                    for bad in range(n):
+                        if graph[bad]:
+                            continue                      # a root layer refuses (the others do not build on it or do)
+                        case = e2e_case(graph, names, kinds, list(range(n)), True, max_perms=4)
+                        case['spec']['layers'][bad]['hooks'] = {'tearDown': 'nie'}
+                        yield case
+
+
 def stage_direct(max_n):
     """all DAGs <= max_n layers x {class, instance} x every assignment of the
     names of 2 pools to the nodes x every non-empty subset of layers x unit
@@ -354,12 +417,16 @@ def random_case(rng):
 
 
 def _size(case):
+    if case['mode'] == 'alias':
+        return (1, 2, 0, 0)
     if case['mode'] == 'direct':
         return (len(case['layers']), len(case['input']), 0, 0)
     return lw.spec_size(case['spec'])
 
 
 def _nontrivial(case):
+    if case['mode'] == 'alias':
+        return True
     if case['mode'] == 'direct':
         return len(case['input']) >= 2
     owners = {g['layer'] for g in case['spec']['groups']}
@@ -382,7 +449,8 @@ def run(budget_s, seed, tier='quick'):
     hard = t0 + (budget_s - hs_reserve) * 0.80
     exhaustive = True
     done = {}
-    stages = [('direct', stage_direct(3)), ('e2e', stage_e2e(3))]
+    stages = [('alias', iter([{'mode': 'alias'}])), ('ntd', itertools.islice(stage_e2e_ntd(), 40 if tier == 'quick' else 100000)),
+              ('direct', stage_direct(3)), ('e2e', stage_e2e(3))]
     extra = ''
     if tier != 'quick':
         stages.append(('direct4', stage_direct4()))
@@ -396,8 +464,8 @@ def run(budget_s, seed, tier='quick'):
         cases += n
         if _nontrivial(case):
             distinct.add(json.dumps(case, sort_keys=True))
-            if (stage == 'random' and len(hash_batch) < 400) or (
-                    stage != 'random' and k % 40 == 0):
+            if case['mode'] != 'alias' and ((stage == 'random' and len(hash_batch) < 400) or (
+                    stage != 'random' and k % 40 == 0)):
                 hash_batch.append(case)
         for key, summary in viol:
             findings.add(key, summary, case, size=_size(case))
@@ -443,7 +511,11 @@ def run(budget_s, seed, tier='quick'):
                  'of layers x unit layer in/out x every input permutation; '
                  'end-to-end runs on all DAGs <=3 layers x {class, instance} '
                  'x every naming x every non-empty owner set (+ unit tests) x '
-                 'every discovery order of the test groups. ' + extra + 'Then seeded '
+                 'every discovery order of the test groups; worlds on 3-4 layers in '
+                 'which a root layer refuses its tearDown (NotImplementedError) so '
+                 'that the remaining layers are handed to subprocesses (the order '
+                 'handed over continues the run order; first 40 in the quick tier). '
+                 + extra + 'Then seeded '
                  'random cases with 3-5 layers (direct: <=12 input '
                  'permutations; e2e: layers with tests in several places, '
                  '--layer selections with permuted option order, <=6 '
